@@ -60,8 +60,8 @@ CHECKS = {
         note="Trusts the array model (equal to what the contiguous layout gives, which C03 checks on its own). "
              "Compressed non-chunked datasets are written whole; n-bit layouts hold values the field represents; a "
              "fixed-size external dataset is first written whole (never-written cells are the external file's bytes); "
-             "GR whole-chunk calls on square images only; two known findings (GR chunk calls with non-square chunks "
-             "and non-pixel interlace) kept out by a guard, stored replays.",
+             "GR whole-chunk calls on square images only (any chunk shape, any interlace: the two former findings on "
+             "non-square chunks were repaired, fix 956a06f).",
         tech=TECH % ("", "oracle = array reference model compared with every layout of the same logical dataset"),
     ),
     "C05": dict(
